@@ -116,6 +116,111 @@ def reference(m, ss):
     return exp
 
 
+def source_scopes(ss, path):
+    """every active source scope with this full path, in source order (a dotted spelling `s.a = 1` is a scope `s` too)"""
+    out = []
+
+    def walk(o, prefix):
+        for c in o.objects:
+            if c.is_disabled or c.is_definition:
+                continue
+            if prefix + c.name == path:
+                out.append(c)
+            elif path.startswith(prefix + c.name + "."):
+                walk(c, prefix + c.name + ".")
+    for s in ss:
+        walk(s, "")
+    return out
+
+
+def value_key(x):
+    """an extracted value as the statement compares instances: by value, floats to the ten digits the library prints"""
+    from common import tokenizer
+    if isinstance(x, freephil.scope_extract):
+        return {k: value_key(v) for k, v in x.__dict__.items() if not (k.startswith("__") and k.endswith("__"))}
+    if isinstance(x, list) and x and all(isinstance(w, tokenizer.word) for w in x):
+        return ["w", [[w.value, w.quote_token] for w in x]]
+    if isinstance(x, list):
+        return [value_key(v) for v in x]
+    if isinstance(x, float):
+        return "%.10g" % x
+    return _fetch.dump(x)
+
+
+def has_multiple(o):
+    return any((not c.is_disabled) and (c.multiple or (c.is_scope and has_multiple(c))) for c in o.objects)
+
+
+def deprecated_children(o, prefix=""):
+    """(relative path, definition) of the active .deprecated definitions below a scope"""
+    out = []
+    for c in o.objects:
+        if c.is_disabled:
+            continue
+        if c.is_definition:
+            if c.deprecated:
+                out.append((prefix + c.name, c))
+        else:
+            out += deprecated_children(c, prefix + c.name + ".")
+    return out
+
+
+def sets_deprecated(mo, instances):
+    """finding class D47 (structural, on the input): some instance of the .multiple scope mo assigns one of its .deprecated
+    parameters a text other than the master's default"""
+    for rel, d in deprecated_children(mo):
+        for inst in instances:
+            for c in source_values([_as_root(inst)], rel):
+                if [w.value for w in c.words] != [w.value for w in d.words]:
+                    return True
+    return False
+
+
+def _as_root(sc):
+    return freephil.scope(name="", objects=sc.objects)
+
+
+def scope_list_rule(ms, mo, p, ss):
+    """the statement's list rule for the .multiple scope mo (path p, parent ms; no .multiple object above or below it), with
+    instances compared by their extracted values instead of by their printed form: returns (expected list, instances)"""
+    further = [c for c in ms.objects if c is not mo and not c.is_disabled and c.name == mo.name and c.is_scope]
+    instances = further + source_scopes(ss, p)
+    cands = [value_key(mo.fetch(source=c).extract()) for c in instances]
+    tmpl = value_key(mo.fetch().extract())
+    cands = [c for c in cands if c != tmpl]
+    out = [c for i, c in enumerate(cands) if c not in cands[i + 1:]]      # exact duplicates collapse onto the later copy
+    if mo.optional is not None and not mo.optional:
+        out = [tmpl] + out
+    return out, instances
+
+
+def deprecated_in_multiple_scope(m, ss, base_extract):
+    """None, or (description, finding ids): the list rule on every .multiple scope that holds a .deprecated parameter"""
+    def walk(ms, prefix, ex):
+        seen = set()
+        for mo in ms.objects:
+            if mo.is_disabled or mo.name in seen or mo.is_definition:
+                continue
+            seen.add(mo.name)
+            p = prefix + mo.name
+            if not mo.multiple:
+                sub = getattr(ex, mo.name, None)
+                if isinstance(sub, freephil.scope_extract):
+                    r = walk(mo, p + ".", sub)
+                    if r:
+                        return r
+                continue
+            if has_multiple(mo) or not deprecated_children(mo):
+                continue
+            want, instances = scope_list_rule(ms, mo, p, ss)
+            got = [value_key(x) for x in getattr(ex, mo.name, [])]
+            if got != want:
+                return ("%s: extracted instances %r, the list rule on extracted values gives %r" % (p, got, want),
+                        ["D47"] if sets_deprecated(mo, instances) else None)
+        return None
+    return walk(m, "", base_extract)
+
+
 def lookup(d, path):
     cur = d
     for c in path.split("."):
@@ -185,8 +290,20 @@ def run(ctx):
                     f = "merging the sources in two steps (result of the first merge as master of the second) differs from merging them at once"
             except (RuntimeError, freephil.Sorry):
                 pass
+        fids = ["D8"] if f and _fetch.has_nested_multiple(tree) and "rewritten" not in f else None
+        if f is None and ".deprecated = True" in mt:
+            # the list rule read on extracted values for .multiple scopes that hold a .deprecated parameter (finding D47: the
+            # code compares prints that hide such a parameter)
+            try:
+                r = deprecated_in_multiple_scope(m, ss, m.fetch(sources=ss).extract())
+            except BaseException as e:
+                r = None
+                ctx.count("deprecated_clause_not_evaluated:" + type(e).__name__)
+            ctx.count("deprecated_master")
+            if r:
+                f, fids = r
         if f:
-            ctx.fail(case, f, finding=["D8"] if _fetch.has_nested_multiple(tree) and "rewritten" not in f else None)
+            ctx.fail(case, f, finding=fids)
         reqs.append(_fetch.fetch_req(mt, srcs))
         impls.append(_fetch.fetch_impl(m, ss))
         cases.append(case)
@@ -209,6 +326,19 @@ def run(ctx):
         impls.append(ia)
     if reqs and ctx.mode != "impl-only":
         ctx.corr("fetch", cases, reqs, impls)
+
+
+def finding_still_fails(f):
+    w = f["witness"]
+    m = freephil.parse(input_string=w["master"])
+    ss = [freephil.parse(input_string=x) for x in w["sources"]]
+    if f["id"] == "D47":
+        # the witness records the instance list the rule gives (plain ints); the replay evaluates the rule again
+        ex = m.fetch(sources=ss).extract()
+        r = deprecated_in_multiple_scope(m, ss, ex)
+        got = [{k: v for k, v in x.__dict__.items() if not k.startswith("__")} for x in getattr(ex, w["path"])]
+        return r is not None and r[1] == ["D47"] and got != w["expected"]
+    return True
 
 
 def replay(payload):
